@@ -55,6 +55,8 @@ THEOREMS = [
     "PV.Prog.annassign_simple_spec",
     "PV.Prog.annassign_paren_not_simple",
     "PV.Prog.annassign_paren_name_not_simple",
+    "PV.Prog.match_subject_spec",
+    "PV.Prog.match_subject_trailing_comma",
     "PV.Prog.render_parse_partial",
 ]
 TRUSTED = [
@@ -110,7 +112,6 @@ PROBES = [
     ("softkw-head-other-colon", "m", "case = 1; x: int = 2\n"),
     ("identifier-not-nfkc", "m", "ﬁ = 1\n"),
     ("subscript-single-starred-not-tuple", "m", "x[*a]\n"),
-    ("match-subject-single-trailing-comma", "m", "match x,:\n case _: pass\n"),
     ("string-prefix-uppercase-u-kind", "m", "U'a'\n"),
     ("fstring-concat-u-kind-not-in-format-spec", "m", "u'a' f'{x:>{w}}'\n"),
     ("type-alias-not-at-line-start", "m", "pass; type X = int\n"),
@@ -210,10 +211,6 @@ def classify_diff(d):
             elts = dict(y[2])["elts"]
             if len(elts) == 1 and _same_or_known(x, elts[0]):
                 return "subscript-single-starred-not-tuple"
-        if y[0] == "ExprTuple" and parent_field == "subject":
-            elts = dict(y[2])["elts"]
-            if len(elts) == 1 and _same_or_known(x, elts[0]):
-                return "match-subject-single-trailing-comma"
     if last == "kind" and x == "s:75" and y == "None" and d["pa"] and d["pa"][0] == "ExprConstant":
         return "string-prefix-uppercase-u-kind"
     if last == "kind" and x == "None" and y == "s:75" and ".format_spec." in path:
@@ -595,6 +592,8 @@ def streams(ctx):
               "from . import x\n", "from .... import x\n", "global a, b\n", "nonlocal a\n", "assert a, b\n", "del a, (b, c), [d]\n",
               "raise A from B\n", "a[1:2, ::3, ...]\n", "a[b:=1]\n", "{**a, 'b': c}\n", "{*a, b}\n", "f(*a, k=1, *b, **c)\n",
               "x = not a is not b\n", "x = a if b else c if d else e\n", "x = a < b <= c != d\n", "x = -1 ** -2\n", "x = (yield)\n",
+"match x,:\n case _: pass\n", "match x ,  :\n case _: pass\n", "match *a,:\n case _: pass\n", "match (x),:\n case _: pass\n", "match w := x,:\n case y as v,: pass\n",
+              "match x:\n case _: pass\n", "match (x,):\n case _: pass\n", "match x, y,:\n case _: pass\n",      # repaired (`match x,:` subject is Tuple([x])): regressions are violations
               "(x): int = 1\n", "(x): int\n", "((x)): int = 1\n", "x: int = 1\n", "(x.y): int = 1\n", "if a: (x): int = 1\n", "pass; (x): int\n",   # repaired (annassign simple flag): regressions are violations
               "﻿x = 1\n", "x = 1\r\ny = 2\r\n", "x = 1\ry = 2\r", "if x:\n\ty\n", "x = \\\n  1\n", "", "\n", "# only a comment", "pass"]
     reqs += [refsweep.make_request("m", 1, s, None) for s in corpus]
